@@ -53,18 +53,11 @@ def modelOut (b : Bytes) : String × Option Signature :=
 def specOut (ch : ClientHello) : Option String := (specReport sha ch).map renderReport
 
 def kfOf (ch : ClientHello) : List String :=
-  (if decide (KF.C04.supportedVersionsNot13 ch) then ["KF.C04.supportedVersionsNot13"] else []) ++
-  (if decide (KF.C04.unknownLegacyVersion ch) then ["KF.C04.unknownLegacyVersion"] else []) ++
-  (if decide (KF.C04.emptyListHash ch) then ["KF.C04.emptyListHash"] else []) ++
-  (if decide (KF.C04.greaseLikeExtension ch) then ["KF.C04.greaseLikeExtension"] else []) ++
   (if decide (KF.C04.alpnNotUtf8 ch) then ["KF.C04.alpnNotUtf8"] else [])
 
 /-- model branch tag of a parsed hello -/
 def tagOf (legacy : Nat) (sg : Signature) : String :=
-  let vsrc := if sg.extensions.contains 43 then "sv"
-    else match Huginn.Gen.Tls.legacyArms.lookup (legacyName legacy) with
-      | some _ => "leg:" ++ legacyName legacy
-      | none => "legdef"
+  let vsrc := (if sg.extensions.contains 43 then "sv:" else "leg:") ++ sg.version.name
   let al := match sg.alpn with
     | none => "a-"
     | some [] => "a0"
